@@ -347,8 +347,12 @@ class Ctx:
         adir.mkdir(parents=True, exist_ok=True)
         afile = adir / (self.prop + ".lean")
         afile.write_text("import %s\n" % prop_module + "".join("#print axioms %s\n" % n for n in names))
-        with Flock("lake"):
-            r = sh(["lake", "env", "lean", str(afile)], cwd=LEAN, stderr=subprocess.STDOUT)
+        # read-only on the .olean files: run without the build lock first, retry under the lock if a
+        # concurrent build was rewriting them
+        r = sh(["lake", "env", "lean", str(afile)], cwd=LEAN, stderr=subprocess.STDOUT)
+        if r.returncode != 0:
+            with Flock("lake"):
+                r = sh(["lake", "env", "lean", str(afile)], cwd=LEAN, stderr=subprocess.STDOUT)
         out = r.stdout
         ok = r.returncode == 0
         seen = {}
